@@ -245,3 +245,44 @@ def string_prefix_variants():
 # valid Python WITHOUT a final newline whose last physical line looks like a comment (it is inside a string / after a
 # continuation): the tokenizer must still close the logical line
 FINAL_LINE_FORMS = ['x = """\n# not a comment"""', "x = 1 \\\n# c", "s = \'\'\'a\n#b\'\'\'", "x = 1\n# c", "x = 1\n   # c", "# only", "if a:\n  b\n  # c", "x = 1\n\\\n# c", "def f():\n    \'\'\'doc\n    # tail\'\'\'"]
+
+
+# rarely used but legal source forms (all accepted by CPython 3.12; checked at import time)
+RARE_FORMS = [
+    # match statement variety
+    "match n:\n    case ast.Name(id=x):\n        pass\n", "match n:\n    case a.b.c:\n        pass\n", "match n:\n    case a.b.C(1, y=2):\n        pass\n",
+    "match p:\n    case {'k': v, **rest}:\n        pass\n", "match p:\n    case {}:\n        pass\n", "match p:\n    case {1: _, 'a': [x, *_]}:\n        pass\n",
+    "match p:\n    case (1 | 2) as x:\n        pass\n", "match p:\n    case [*_, last]:\n        pass\n", "match p:\n    case (x, y, *rest) if x > y:\n        pass\n",
+    "match p:\n    case -1 | 2.5 | -3j | 1+2j | 1.5-2J:\n        pass\n", "match p:\n    case 'a' 'b' | b'c' | None | True | False:\n        pass\n",
+    "match p:\n    case str() | int(real=0):\n        pass\n", "match p, q:\n    case 1, 2:\n        pass\n    case _:\n        pass\n", "match (p):\n    case [(1)]:\n        pass\n",
+    "match = 1\ncase = match\nmatch[case] = type\n", "match(x)\ncase(y)\n", "match x:\n    case {0J+1j: y}:\n        pass\n" if False else "match x:\n    case {1+1j: y}:\n        pass\n",
+    # numbers and strings
+    "x = 0x_ff + 0b_1010 | 0o_17\n", "x = 0XAB_cd + 0B1 + 0O7\n", "x = 1_000.000_1e1_0 + 1E5 + 1e-5J\n", "x = .5 + 5. + 5.e3 + .5j\n", "x = 00 + 0_0 + 0e0 + 00.5 + 09.5 + 09e1j\n",
+    "x = 1if y else 2\n" if False else "x = (1)if y else(2)\n", "x = 'a' \"b\" '''c''' \"\"\"d\"\"\"\n", "x = b'a' B\"b\" rb'\\d' Rb'\\d' bR'x' BR'y'\n", "x = u'a' U'b' r'\\n' R'\\n'\n", "x = 'it''s' \"q\\\"q\" '\\N{EM DASH}' 'a\\x41\\u00e9\\0'\n",
+    # calls, subscripts, slices, stars
+    "f(a, *b, c, *d, k=1, **e, **f)\n", "f(a,)\n", "f(*a,)\n", "f(**a,)\n", "f(x for x in y)\n", "f(a, (x for x in y))\n", "f(a := 1, b=(c := 2))\n",
+    "a[::]\n", "a[b:c, d:e, ...]\n", "a[*b]\n", "a[*b, c]\n", "a[b:=1]\n" if False else "a[(b:=1)]\n", "a[1:2:3, ::2, :, 1]\n", "a[()]\n", "a[b,]\n",
+    "x = *a, b\n", "x = (*a,)\n", "[*a, *b] = c\n", "(a, (b, *c)), d = e\n", "for *a, b in c: pass\n", "for a, in b: pass\n", "del (a), [b], c.d, e[0]\n", "del (a, b), [c, d]\n",
+    # lambda, comprehension, conditional, walrus
+    "f = lambda a, /, b, *, c=1, **d: (yield)\n", "f = lambda *, k: k\n", "f = lambda a=1, *b, c, **d: a\n", "f = lambda: lambda: 0\n", "x = [i for i in range(3) if i if i > 1]\n",
+    "x = {k: v for k, v in z if (y := k)}\n", "x = {*a, *b}\n", "x = {**a, 'k': 1, **b}\n", "x = [y async for y in z]\n" if False else "async def g():\n    return [y async for y in z if await y]\n",
+    "x = a if b else c if d else e\n", "x = not a in b is not c\n", "x = a < b <= c != d is e in f\n", "x = -+~a ** -b\n", "x = a @ b @= c\n" if False else "a @= b @ c\n", "x = await_ + async_\n",
+    # statements
+    "global a, b\n", "def f():\n    nonlocal_ = 1\n    def g():\n        nonlocal nonlocal_\n", "assert a, 'm'\n", "assert (a, 'm')\n", "raise A from B\n", "raise\n",
+    "import a.b.c as d, e\n", "from . import a\n", "from .. import (a as b, c,)\n", "from ...x.y import *\n", "from a import (b)\n",
+    "try:\n    pass\nexcept (A, B) as e:\n    pass\nexcept C:\n    pass\nelse:\n    pass\nfinally:\n    pass\n", "try:\n    pass\nexcept* A as e:\n    pass\nexcept* (B, C):\n    pass\n",
+    "with (a as b, c as d,):\n    pass\n", "with (a, b):\n    pass\n", "with (a) as b, (c):\n    pass\n", "with a as (b, c), d as [e]:\n    pass\n", "async def f():\n    async with a as b, c:\n        pass\n    async for x in y:\n        pass\n    else:\n        pass\n",
+    "while a:\n    break\nelse:\n    continue_ = 1\n", "for a in b:\n    continue\nelse:\n    pass\n", "if a: pass\nelif b: pass\nelse: pass\n", "if a: b; c; d;\n", "x = 1; y = 2;\n",
+    "@a.b(c)\n@d\n@(e or f)\n@g[0]\n@h if i else j\ndef k(): pass\n", "@a\nclass B(C, metaclass=D, **kw): pass\n", "class A(): pass\n", "class A[T: int, *Ts, **P](B[T]): pass\n", "def f[T, *Ts, **P](a: T, *b: *Ts, **c: P.kwargs) -> T: pass\n",
+    "type X[T] = list[T]\n", "type X = int | str\n", "def f(a, b=1, /, c=2, *d, e, f=3, **g): pass\n", "def f(*, a): pass\n", "def f(a, /): pass\n", "def f(a: int = 1, *b: str, c: 'x' = 2, **d: y) -> z: pass\n",
+    "x: int\n", "x: int = 1\n", "(x): int = 1\n", "a.b: int\n", "a[0]: int = 2\n", "x: (yield)\n" if False else "x: tuple[int, ...] = (1, ...)\n",
+    "a += 1; b -= 2; c *= 3; d /= 4; e //= 5; f %= 6; g **= 7; h >>= 8; i <<= 9; j &= 1; k ^= 2; l |= 3\n", "a = b = c = d\n", "a = yield b\n" if False else "def f():\n    a = yield b\n    c = yield from d\n    yield\n",
+    "print(*a, sep='')\n", "x = (yield)\n" if False else "def g():\n    x = (yield)\n    await_ = (yield 1, 2)\n", "x = ...\n", "...\n", "x = a if b else (yield_)\n",
+    "if (n := len(a)) > 10: pass\n", "while chunk := f.read(8): pass\n", "x = [y := 1, y ** 2]\n", "x = f(y := 1)\n" if False else "print((y := 1))\n",
+]
+import ast as _ast_chk
+
+RARE_FORMS = [s for s in RARE_FORMS if s]
+for _s in RARE_FORMS:
+    _ast_chk.parse(_s)  # a form CPython rejects is a bug in this table
+PY_STMTS = list(PY_STMTS) + [s for s in RARE_FORMS if s not in PY_STMTS]
